@@ -95,6 +95,19 @@ def calls (sem : Sem S Req Resp) (plan : Plan) : Nat → Prog Req Resp α → S 
     | .crashBefore => 1
     | .crashAfter => 1
 
+/-- One log entry per attempted call: the request, the plan's outcome and the reply
+the controller saw (`none` when the process crashed). Used by the drivers to compare
+the model's call sequence with the implementation's. -/
+def callLog (sem : Sem S Req Resp) (plan : Plan) : Nat → Prog Req Resp α → S → List (Req × Outcome × Option Resp)
+  | _, .ret _, _ => []
+  | k, .call r c, s =>
+    match plan k with
+    | .ok => (r, .ok, some (sem.exec s r).2) :: callLog sem plan (k+1) (c (sem.exec s r).2) (sem.exec s r).1
+    | .fail => (r, .fail, some (sem.errResp .fail r)) :: callLog sem plan (k+1) (c (sem.errResp .fail r)) s
+    | .conflict => (r, .conflict, some (sem.errResp .conflict r)) :: callLog sem plan (k+1) (c (sem.errResp .conflict r)) s
+    | .crashBefore => [(r, .crashBefore, none)]
+    | .crashAfter => [(r, .crashAfter, none)]
+
 theorem start_mem_reach (sem : Sem S Req Resp) (plan : Plan) (k : Nat) (p : Prog Req Resp α) (s : S) :
     ∃ l, reach sem plan k p s = s :: l := by
   induction p generalizing k s with
